@@ -8,6 +8,9 @@ CONSTANTS
   FixBatch = TRUE
   LossySend = TRUE
   HasKeepalive = TRUE
+  DirectCalls = TRUE
+  MaxMsgLen = 1
+  AsyncApply = FALSE
 INVARIANTS NotW3
 
 CHECK_DEADLOCK FALSE
